@@ -15,7 +15,7 @@ CLAIMS = {
                 "BurstForwarder.forward_msg is reached exactly under {peer is not sender, peer.running, peer Rx freq(FN) == "
                 "sender Tx freq(FN)}, once per peer, over the full list; frequency resolvers return the fixed value iff no "
                 "hopping else element 0/1 of resolve(fn); SETFH builds (Rx,Tx) pairs in documented order; non-running "
-                "transceivers do not transmit; every transceiver ticks; only the forwarder delivers. The list object handed to the forwarder stays the registration list: no owner attribute on the path to it is rebound by code that can run after the hand-over (R6); SETFH pairing is also folded for non-monotone witness channel lists. The getters are decided by folding them over {hopping, not hopping} with opaque frequencies; enable_fh over both outcomes of the HoppingParams constructor (a refused SETFH leaves the configuration in use).",
+                "transceivers do not transmit; every transceiver ticks; only the forwarder delivers. The list object handed to the forwarder stays the registration list: no owner attribute on the path to it is rebound by code that can run after the hand-over (R6); SETFH pairing is also folded for non-monotone witness channel lists. The getters are decided by folding them over {hopping, not hopping} with opaque frequencies; enable_fh over both outcomes of the HoppingParams constructor (a refused SETFH leaves the configuration in use). R3's dispatcher clause is decided by folding Application.clck_handler for two ticks with three registered transceivers as recording oracles (each ticks once per frame with the forwarder and the frame number). R8 also folds Transceiver.enable_fh() itself with modelled objects: parameters differing in HSN, MAIO, one channel or the channel order end up installed.",
         "note": TB + "Not decided: correctness of HoppingParams.resolve (C07), what the recipient does after delivery (C10, C18).",
     },
     "C03": {
@@ -24,7 +24,7 @@ CLAIMS = {
                 "_tx_queue_lock (read and replace in one critical section); only append/clear/clck_tick write it; an arrival is "
                 "enqueued exactly once iff parsed, version-matched and running; the tick classifier sends each queued message to "
                 "exactly one of emit (FN equal) / stale (modular past) / wait (modular future) under every ordering incl. the "
-                "hyperframe wrap; each due burst is forwarded once, each stale one logged; power-off clears every selected queue. Only the power-off handler may discard the queue (who-may-call over tx_queue_clear).",
+                "hyperframe wrap; each due burst is forwarded once, each stale one logged; power-off clears every selected queue. Only the power-off handler may discard the queue (who-may-call over tx_queue_clear). R3 is decided by folding clck_tick() on witness queues around the hyperframe wrap (sent bursts with their own frame numbers, what stays queued, one report per passed burst); the partition-loop table is a structural record whose critical-section and stale-report clauses stay real obligations.",
         "note": TB + "Not decided: exactly-once over all histories as such (induction over these premises is argued in DESIGN.md), fairness of the clock thread.",
     },
     "C13": {
@@ -33,7 +33,7 @@ CLAIMS = {
                 "field values incl. None) accepted by validate() equals the protocol ranges of spec/ranges.json exactly (both "
                 "inclusions, per field and as a whole); every reachable rejection raises ValueError and cannot raise another class "
                 "while building its message or comparing a None field; validate() dominates every buffer write of gen_msg; send() is "
-                "unreachable from send_msg's rejection handler and nothing sends on a data interface bypassing send_msg. Validation conditions that call a pure repository function on one integer field are folded on critical points (purity of the callee checked). 'Sending' is closed over the self-calls of the interface's class family (a retry through send_msg counts).",
+                "unreachable from send_msg's rejection handler and nothing sends on a data interface bypassing send_msg. Validation conditions that call a pure repository function on one integer field are folded on critical points (purity of the callee checked). 'Sending' is closed over the self-calls of the interface's class family (a retry through send_msg counts). When the accepted-set extraction leaves its vocabulary, R1 is decided by folding validate() on 400 boundary witnesses (just inside / outside every range, None, foreign versions, burst lengths).",
         "note": TB + "Fields are assumed to hold ints or None (the property's quantifier). Validity of burst *contents* is not constrained by the statement.",
     },
     "C12": {
@@ -43,7 +43,7 @@ CLAIMS = {
                 "clock-link and generator start/stop actions equal the specified decision table over all 16 truth assignments, link "
                 "update first; POWERON succeeds iff not running and ready (ready = tuned or hopping), POWEROFF always; only parse_cmd "
                 "issues power events; interface ports are base+2*idx+{102,2}/{101,1} and base+{100,0} in UDPLink's (remote, bind) "
-                "order; children get no clock and are linked to their parent; MS does not manage children. Application.trx_def (regular expression included) is folded for witness --trx definitions with 0..3-digit child indexes (R7). The transceiver factory (append_trx / append_child_trx) is folded with the constructor as recording oracle: every keyword reaches the constructor, parents get the shared clock, children none. R1 also confines the plain tuning state (_rx_freq / _tx_freq) to the constructor and the RXTUNE / TXTUNE handler (a resolved hopping frequency must not leak into it and survive POWEROFF). R10 (lock order): on the name-resolved call graph no `with <lock>` region reaches a join() of a thread whose own code takes the same lock (POWEROFF stopping the clock generator under the queue mutex would never return).",
+                "order; children get no clock and are linked to their parent; MS does not manage children. Application.trx_def (regular expression included) is folded for witness --trx definitions with 0..3-digit child indexes (R7). The transceiver factory (append_trx / append_child_trx) is folded with the constructor as recording oracle: every keyword reaches the constructor, parents get the shared clock, children none. R1 also confines the plain tuning state (_rx_freq / _tx_freq) to the constructor and the RXTUNE / TXTUNE handler (a resolved hopping frequency must not leak into it and survive POWEROFF). R10 (lock order): on the name-resolved call graph no `with <lock>` region reaches a join() of a thread whose own code takes the same lock (POWEROFF stopping the clock generator under the queue mutex would never return). R2 also pairs the containers tx_queue_append() fills with those tx_queue_clear() empties; R5 confines writers of remote_addr / remote_port / base_port to constructors; R3 is decided by folding the clock section of power_event_handler() over its 18-row decision space and CLCKGen.stop() for its two states (the decision tables over branch atoms are structural records).",
         "note": TB + "Not decided: the iff between `running` and the whole command history as such (follows from the single-writer rule and the decision tables by induction, argued not checked); trxcon's socket plan is cross-checked where cfront is available.",
     },
     "C18": {
@@ -57,12 +57,12 @@ CLAIMS = {
         "note": TB + "Not decided: 'exactly the next n matching bursts' as a count over a stream (follows by induction from the one-decrement-per-suppressed-burst rule).",
     },
     "C05": {
-        "technique": "decision tables of the receive path, structural normal form of the reply, return-value analysis of the dispatchers, verb/arity table extraction vs spec and vs trxcon's emitted commands (clang AST), exhaustive folding over the 4-bit version domain, buffer-size agreement, who-may-write of the negotiated header version",
+        "technique": "decision tables of the receive path, structural normal form of the reply, return-value analysis of the dispatchers, verb/arity table extraction vs spec and vs trxcon's emitted commands (clang AST), exhaustive folding over the 4-bit version domain, buffer-size agreement, who-may-write of the negotiated header version, folding of the simulation-command effects; guard folding over channel-number boundaries (clang AST)",
         "text": "Decides for every datagram: exactly one send_response iff the CMD signature verified (none for undecodable or unsigned datagrams), to the "
                 "address of the same recvfrom, with 'RSP ' + verb, status inserted at index 1, arguments, optional results + NUL, always sent; both "
                 "dispatchers return a status on every path, unknown verbs 0; the accepted (verb, argc) table equals spec/trxc.json and accepts every "
                 "command trxcon emits; handlers read only arguments their arity guarantees; SETFORMAT/MEASURE/tuning decision tables; "
-                "set_hdr_ver/pick_hdr_ver folded for all 16 versions; the control receive size covers trxcon's TRXC_BUF_SIZE. The whole receive path (handle_rx .. sendto) is folded for ten scenario datagrams / handler results: number of replies, exact reply text, destination (shape rules on send_response are only a fallback when the code does not fold); a frame number that may be None reaches the hopping resolver only for non-hopping transceivers (R7, two decision tables). R9: the negotiated header version has three writers only (constructor, set_hdr_ver, the SETFORMAT branch): who-may-write scan over the toolkit plus a fold of the command handler for every other verb with the interface on version 1.",
+                "set_hdr_ver/pick_hdr_ver folded for all 16 versions; the control receive size covers trxcon's TRXC_BUF_SIZE. The whole receive path (handle_rx .. sendto) is folded for ten scenario datagrams / handler results: number of replies, exact reply text, destination (shape rules on send_response are only a fallback when the code does not fold); a frame number that may be None reaches the hopping resolver only for non-hopping transceivers (R7, two decision tables). R9: the negotiated header version has three writers only (constructor, set_hdr_ver, the SETFORMAT branch): who-may-write scan over the toolkit plus a fold of the command handler for every other verb with the interface on version 1. R10: accepted simulation commands store what was asked (absolute forms set, relative forms add the signed delta, SETTA unclamped), folded from a non-default state. R11: trxcon's MEASURE result handler hands on every valid channel number (0 included) and refuses only the converter's failure value.",
         "note": TB + "Not decided: status/side effects as a function of the whole command history beyond the per-branch guard rules (POWERON/POWEROFF tables are under C12).",
     },
     "C14": {
@@ -82,27 +82,27 @@ CLAIMS = {
                 "in _worker the deadline variable starts at now(), advances by a loop-invariant tick (folds to 4.615 ms +- 1 us) each "
                 "iteration, is re-based on the clock only under the overrun test, the wait timeout is deadline - now in seconds, one tick "
                 "per iteration iff the wait expired, exit only via the breaker; start() resets the counter before the thread runs; stop() "
-                "joins and resets so start() can run again.",
+                "joins and resets so start() can run again. R7: operating-system calls of the clock thread's set-up are inside a handler that catches OSError as a whole.",
         "note": TB + "Not decided: actual tick times under any handler-duration pattern (needs a clock), thread scheduling.",
     },
     "C15": {
-        "technique": "forward substitution (writer/reader sibling agreement of the record framing), guard literals for short-read detection, decision tables and statement-order rules of skip/count/append; typestate dataflow of the file position; folds of append_msg / append_all with the file object as recording oracle",
+        "technique": "forward substitution (writer/reader sibling agreement of the record framing), guard literals for short-read detection, decision tables and statement-order rules of skip/count/append; typestate dataflow of the file position; folds of append_msg / append_all with the file object as recording oracle, history folds on a random-access file model",
         "text": "Decides for every stored sequence and truncation offset the framing premises: writer emits tag(by class) + '>H' length of "
                 "gen_msg() + that message, reader maps the same tags to the same classes and reads the length with the same format at "
                 "hdr[1:3], HDR_LENGTH = 3, tags distinct, largest message fits 16 bits; a record is returned only if header and body "
                 "were read completely (short reads and EOF give None, unparsable bodies False, never an exception); skip advances idx "
                 "times by header + stored length with a relative seek from a rewound file; parse_all's loop ends on EOF, skips "
-                "unparsable records, stops at count; append writes exactly dump_msg in list order. R1 is decided by folding writer and reader on 12 witness pairs (both classes, payloads of 0..751 octets): record = header + payload as produced by the plain gen_msg(), header read back as (same class, same length), foreign classes refused, unknown tags False. R6: typestate of the capture file's position ({unknown, at end}) over the CFG of every DATADumpFile method: every write happens at the end of the file on every path (seek(0, 2) since the last read / seek), and nobody outside the class writes to the file; what _parse_msg returns is the message object the record's body was parsed into; the open mode keeps stored messages.",
+                "unparsable records, stops at count; append writes exactly dump_msg in list order. R1 is decided by folding writer and reader on 12 witness pairs (both classes, payloads of 0..751 octets): record = header + payload as produced by the plain gen_msg(), header read back as (same class, same length), foreign classes refused, unknown tags False. R6: typestate of the capture file's position ({unknown, at end}) over the CFG of every DATADumpFile method: every write happens at the end of the file on every path (seek(0, 2) since the last read / seek), and nobody outside the class writes to the file; what _parse_msg returns is the message object the record's body was parsed into; the open mode keeps stored messages. R7: the public methods are folded in sequence on ONE object state over the checker's file model (three records; a variant cut inside the last body): full read twice, random access then full read, skip / count windows, skip and index past the end, append after a read - every call returns exactly the records the file holds, selected by its arguments.",
         "note": TB + "Not decided: field equality of what is returned (C01's round trip); behaviour on files containing unparsable records beyond skip/continue.",
     },
     "C01": {
-        "technique": "byte-layout abstract interpretation of encoder and decoder (sibling agreement), bit provenance via expression normal form, validated-range vs wire-width containment, exhaustive constant folding of the soft-bit tables, the MTS octet and the burst-length rules",
+        "technique": "byte-layout abstract interpretation of encoder and decoder (sibling agreement), bit provenance via expression normal form, validated-range vs wire-width containment, exhaustive constant folding of the soft-bit tables, the MTS octet and the burst-length rules, end-to-end folding of encoder and decoder on corner witnesses",
         "text": "Decides codec symmetry, a necessary condition of the round trip, for all field values: per class and header version the encoder's "
                 "segment list and the decoder's field expressions are inverse (same offsets, struct formats, negation of RSSI, version in bits 7..4 and "
                 "TN in bits 2..0 of octet 0 without overlap, burst at HDR_LEN on both sides); every validated value fits its wire width; the four "
                 "256-entry soft-bit tables are mutually inverse on -127..127 and map bits to full-confidence soft bits of the matching sign; "
                 "parse_mts(gen_mts(x)) == x for all 112 valid (modulation, TSC set, TSC) combinations and NOPE, all 256 octets parse; "
-                "burst-length and legacy-padding rules give back the sent length for every encodable length. The datagram returned by gen_msg() is storage created during the call (R6: not a class/instance/module-level buffer). R7: memoising decorators are sound only over attributes never stored after construction (a per-object cached HDR_LEN is stale once parse_msg re-reads the version); the soft-bit coding on the wire and its inverse are folded over all 256 octet values.",
+                "burst-length and legacy-padding rules give back the sent length for every encodable length. The datagram returned by gen_msg() is storage created during the call (R6: not a class/instance/module-level buffer). R7: memoising decorators are sound only over attributes never stored after construction (a per-object cached HDR_LEN is stale once parse_msg re-reads the version); the soft-bit coding on the wire and its inverse are folded over all 256 octet values. R8: gen_msg() and parse_msg() of both classes are folded end to end on 40 corner witnesses (both versions, FN 0 / max, every modulation, all-zero / all-one bursts, soft-bit extremes, NOPE, legacy padding): decoded fields = encoded fields, the message is unchanged by encoding, encoding twice gives the same octets, an in-place change of a burst element reaches the next encoding. R7 also reports one-shot iterators (generator expressions, map / filter / zip objects) bound at module or class level and read by functions.",
         "note": TB + "Not decided: equality of every field for every concrete message (the runtime round trip itself); fields not on the wire (mod_type on v0).",
     },
     "C04": {
@@ -122,7 +122,7 @@ CLAIMS = {
                 "FAKE_RSSI window), ToA256 = window value - 256 x sender TA, C/I from its window, each window = base or "
                 "randint(base - thr, base + thr); on v1 modulation = pick_by_bl(len(sent burst)), TSC/TSC set from TrainingSeqGMSK.pick "
                 "for GMSK else 0; pick() compares the slices [61:87], [8:49], [42:106] with sequences of the matching burst type; the "
-                "generators place the training sequence at exactly those offsets in 148-bit bursts; the sequence table equals the reference copy. pick() is additionally folded for 30 witness bursts against the reference (first member in definition order whose sequence equals the slice at the position of its burst type); the path-loss term is a constant or a constructor-only attribute of the recipient. R5: a rejected FAKE_TOA / FAKE_RSSI / FAKE_CI command (status != 0 or ValueError) changes no simulated radio setting (handler folded over argument witnesses of both forms); TxMsg.trans folded over {requested version None/0/1} x {own version} x {burst or not}. R7: the header version a recipient negotiated is changed by nothing but SETFORMAT (who-may-write scan over all toolkit modules + per-verb fold of the command handler) - a power event or data path that resets / copies it is reported.",
+                "generators place the training sequence at exactly those offsets in 148-bit bursts; the sequence table equals the reference copy. pick() is additionally folded for 30 witness bursts against the reference (first member in definition order whose sequence equals the slice at the position of its burst type); the path-loss term is a constant or a constructor-only attribute of the recipient. R5: a rejected FAKE_TOA / FAKE_RSSI / FAKE_CI command (status != 0 or ValueError) changes no simulated radio setting (handler folded over argument witnesses of both forms); TxMsg.trans folded over {requested version None/0/1} x {own version} x {burst or not}. R7: the header version a recipient negotiated is changed by nothing but SETFORMAT (who-may-write scan over all toolkit modules + per-verb fold of the command handler) - a power event or data path that resets / copies it is reported. R8: see C05.R10 (FAKE_TOA / FAKE_RSSI / FAKE_CI / SETTA effects from a non-default state). R3's generator clause is decided by folding gen_nb / gen_sb / gen_ab with every training sequence of the burst type (148 bits, the sequence where pick() looks for it, default drawn from the own burst type).",
         "note": TB + "Not decided: numeric values for concrete configurations; randomised values beyond their window bounds; the training-sequence reference is the tree's own content for entries not cross-read against TS 45.002 (detects change).",
     },
 }
